@@ -7,7 +7,8 @@
 (* permanent one SOL, dilution of the LST supply), the group admin edits    *)
 (* the group-wide staked settings (weights, collateral-value cap, feed age, *)
 (* risk tier - refused unless coherent) and anybody propagates them to a    *)
-(* staked bank (refused when the copied feed age is below the minimum).     *)
+(* staked bank (refused when the copied feed age is below the minimum, or  *)
+(* when the SOL feed was swapped and the new one is not passed along).     *)
 (* The LST price is transcribed as the adapter computes it (module Impl:    *)
 (* raw spot / time-weighted feed value x (delegated stake - 1 SOL) /        *)
 (* supply, truncating, confidence NOT rescaled; check order supply, stake,  *)
@@ -44,6 +45,7 @@ Patch(p) ==
   @@ (IF Has(p, "max_age") THEN [max_age |-> p.max_age] ELSE <<>>)
   @@ (IF Has(p, "init_limit") THEN [init_limit |-> p.init_limit] ELSE <<>>)
   @@ (IF Has(p, "risk_tier") THEN [risk_tier |-> p.risk_tier] ELSE <<>>)
+  @@ (IF Has(p, "oracle") THEN [oracle |-> p.oracle] ELSE <<>>)
 SettingsValid(s) ==
   /\ ~BIsNeg(s.aw_init) /\ BLe(s.aw_init, FOne)
   /\ BGe(s.aw_maint, s.aw_init)
@@ -57,24 +59,30 @@ EditSettings(p) ==
                        !.aw_maint = IF Has(q, "aw_maint") THEN q.aw_maint ELSE @,
                        !.oracle_max_age = IF Has(q, "max_age") THEN q.max_age ELSE @,
                        !.init_limit = IF Has(q, "init_limit") THEN BOfInt(q.init_limit) ELSE @,
-                       !.risk_tier = IF Has(q, "risk_tier") THEN q.risk_tier ELSE @]
+                       !.risk_tier = IF Has(q, "risk_tier") THEN q.risk_tier ELSE @,
+                       !.oracle = IF Has(q, "oracle") THEN q.oracle ELSE @]
       post == [st EXCEPT !.staked[SettingsName] = s1]
   IN IF SettingsValid(s1)
      THEN Do(a, "ok", post, [staked |-> (SettingsName :> [aw_init |-> s1.aw_init, aw_maint |-> s1.aw_maint, oracle_max_age |-> s1.oracle_max_age,
-                                                           init_limit |-> s1.init_limit, risk_tier |-> s1.risk_tier])])
+                                                           init_limit |-> s1.init_limit, risk_tier |-> s1.risk_tier, oracle |-> s1.oracle])])
      ELSE Fail(a, "InvalidConfig")
 
-\* ---- propagate_staked_settings (anybody): copy, then BankConfig::validate (the feed itself is unchanged here)
-Propagate(bn) ==
-  LET a == [op |-> "propagate_staked", bank |-> bn]
-      s == st.staked[SettingsName] b == st.banks[bn]
+\* ---- propagate_staked_settings (anybody): copy; if the SOL feed changed, the new feed has to be passed along and is validated
+\* (one account, the key the settings name, a price update account); then BankConfig::validate
+Propagate(bn, give) ==
+  LET s == st.staked[SettingsName] b == st.banks[bn]
+      a == [op |-> "propagate_staked", bank |-> bn] @@ (IF give THEN [oracle |-> s.oracle] ELSE <<>>)
+      changed == s.oracle # b.cfg.oracle_keys[1]
       c1 == [b.cfg EXCEPT !.aw_init = s.aw_init, !.aw_maint = s.aw_maint, !.deposit_limit = s.deposit_limit,
-                          !.init_limit = s.init_limit, !.oracle_max_age = s.oracle_max_age, !.risk_tier = s.risk_tier]
+                          !.init_limit = s.init_limit, !.oracle_max_age = s.oracle_max_age, !.risk_tier = s.risk_tier,
+                          !.oracle_keys = [@ EXCEPT ![1] = s.oracle]]
       post == [st EXCEPT !.banks[bn].cfg = c1]
-  IN IF ~SettingsValid(s) THEN Fail(a, "InvalidConfig")
+  IN IF changed /\ ~give THEN Fail(a, "WrongNumberOfOracleAccounts")
+     ELSE IF ~SettingsValid(s) THEN Fail(a, "InvalidConfig")
      ELSE IF s.oracle_max_age < 10 THEN Fail(a, "InvalidOracleSetup")
      ELSE Do(a, "ok", post, [banks |-> (bn :> [cfg |-> [aw_init |-> c1.aw_init, aw_maint |-> c1.aw_maint, deposit_limit |-> c1.deposit_limit,
-                                                         init_limit |-> c1.init_limit, oracle_max_age |-> c1.oracle_max_age, risk_tier |-> c1.risk_tier]])])
+                                                         init_limit |-> c1.init_limit, oracle_max_age |-> c1.oracle_max_age, risk_tier |-> c1.risk_tier,
+                                                         oracle_keys |-> c1.oracle_keys]])])
 
 \* ---- the exact boundary of a withdrawal of collateral
 RECURSIVE BisectW(_, _, _, _)
@@ -108,7 +116,7 @@ NextS ==
      \/ \E v \in StakeMoves : SetStake(v)
      \/ \E v \in Dilutions : Dilute(v)
      \/ \E p \in SettingsEdits : EditSettings(p)
-     \/ \E bn \in StakedBanks : Propagate(bn)
+     \/ \E bn \in StakedBanks, give \in BOOLEAN : Propagate(bn, give)
      \/ \E p \in BoundaryPairs : BoundaryBorrow(p[1], p[2])
      \/ \E p \in WdPairs : BoundaryWithdraw(p[1], p[2])
      \/ \E t \in SLiqCases : BoundarySeize(t)
@@ -118,5 +126,5 @@ SpecS == Init /\ [][NextS]_vars
 
 Pools == IF Has(st, "pools") THEN st.pools ELSE <<>>
 ViewS == <<ViewR, [p \in DOMAIN Pools |-> <<Pools[p].stake, Pools[p].supply>>], st.staked,
-           [b \in StakedBanks |-> <<st.banks[b].cfg.aw_init, st.banks[b].cfg.aw_maint, st.banks[b].cfg.oracle_max_age, st.banks[b].cfg.risk_tier>>]>>
+           [b \in StakedBanks |-> <<st.banks[b].cfg.aw_init, st.banks[b].cfg.aw_maint, st.banks[b].cfg.oracle_max_age, st.banks[b].cfg.risk_tier, st.banks[b].cfg.oracle_keys[1]>>]>>
 =============================================================================
